@@ -353,9 +353,9 @@ func classify(in input) shape {
 // ------------------------------------------------------------ generators
 
 func gen(r *hx.Rand, tier string) []json.RawMessage {
-	n := 400
+	n := 300
 	if tier == "thorough" {
-		n = 5000
+		n = 4000
 	}
 	var out []json.RawMessage
 	add := func(ops []Op) { out = append(out, hx.J(input{ops})) }
